@@ -23,7 +23,7 @@ RULES = ["C15.Clamp", "C15.Finite", "C15.InitialWindow", "C15.LossReaction", "C1
 # indices used by MCCubic: clock advance before the call / round-trip time sampled into a fresh estimator
 DT = [[0, 0], [0, 1_000_000], [0, 50_000_000], [10, 0], [3600, 0]]
 RTT = [[0, 0], [0, 1], [0, 50_000_000], [3600, 0]]
-OBS_KEYS = ("d", "w", "s", "u", "smss", "nan", "panic", "rtt")
+OBS_KEYS = ("d", "w", "s", "u", "smss", "nan", "panic", "rtt", "case")
 OPNAME = {"n": "new", "m": "set_mss", "w": "set_rwnd", "a": "ack", "t": "rto", "e": "enter_recovery", "r": "recovered"}
 
 
@@ -72,22 +72,29 @@ def graph_of(out):
 
 
 def cases_of(edges):
-    """One case per transition: the canonical history of the source state (first incoming edge in sorted order)
-    followed by the calls.  Returns (cases, subtree) with cases[i] = (parent case index or None, calls)."""
+    """One case per (source state, calls): the canonical history of the source state (first incoming transition in
+    sorted order) followed by the calls.  Returns (cases, sub, answers): cases[i] = (parent case index or None,
+    calls), sub[i] = top-level subtree, answers[i] = the witness machine's answers (w, u, s) to the last call (more
+    than one where the witness is nondeterministic: congestion avoidance)."""
     canon = {}     # (depth, key) -> index of the canonical case that ends there
-    cases, sub = [], []
-    for i, (d, frm, calls, to) in enumerate(edges):
+    index = {}     # (parent, calls) -> case index
+    cases, sub, answers = [], [], []
+    for d, frm, calls, to in edges:
         if d < 0:
             p = None
-            sub.append(-1)
         else:
             p = canon.get((d,) + frm)
             if p is None:
                 raise core.ToolError(f"transition from a state TLC never reached: {(d,) + frm}")
-            sub.append(i if d == 0 else sub[p])
-        cases.append((p, calls))
+        i = index.get((p, calls))
+        if i is None:
+            i = index[(p, calls)] = len(cases)
+            cases.append((p, calls))
+            sub.append(-1 if d < 0 else i if d == 0 else sub[p])
+            answers.append([])
+        answers[i].append(to[-3:])
         canon.setdefault(to, i)
-    return cases, sub
+    return cases, sub, answers
 
 
 def full_case(cases, i):
@@ -101,7 +108,7 @@ def full_case(cases, i):
 
 def write_shards(cases, sub, nshards, prefix):
     """Split by top-level subtree (first call after `new`), balanced by size; every shard is closed under
-    prefixes.  Returns [(path, ncases)]."""
+    prefixes.  Returns [(path, case index of every line of the shard)]."""
     size = {}
     for s in sub:
         if s >= 0:
@@ -131,7 +138,7 @@ def write_shards(cases, sub, nshards, prefix):
     return [(f"{prefix}{k}.cases.ndjson", glob[k]) for k in range(nshards) if load[k] > 0]
 
 
-def drift(edges, shards):
+def drift(answers, shards):
     """spec -> impl comparison of answers: how often the real controller's (w, u, s) after the last call of a
     case equals (within 2 bytes) what the contract's witness machine answers.  A statistic, never a verdict:
     the contract is nondeterministic (congestion-avoidance growth, the value kept below the floor)."""
@@ -143,12 +150,12 @@ def drift(edges, shards):
                 if '"case"' not in l:
                     continue
                 r = json.loads(l)
-                to = edges[glob[r["case"]]][3]
+                exp = answers[glob[r["case"]]]
                 total += 1
-                if all(abs(a - b) <= 2 for a, b in zip((r["w"], r["u"], r["s"]), to[-3:])):
+                if any(all(abs(a - b) <= 2 for a, b in zip((r["w"], r["u"], r["s"]), to)) for to in exp):
                     agree += 1
                 elif first is None:
-                    first = {"witness_w_u_s": list(to[-3:]), "answer": {k: r[k] for k in ("op", "w", "u", "s")}}
+                    first = {"witness_w_u_s": [list(t) for t in exp], "answer": {k: r[k] for k in ("op", "w", "u", "s")}}
     return {"cases_compared": total, "answers_equal_to_witness": agree, "first_difference": first}
 
 
@@ -248,8 +255,8 @@ def run(tier, seed):
     missing_ops = [o for o in OPNAME.values() if by_op.get(o, 0) == 0]
     if missing_ops:
         raise core.ToolError(f"MCCubic never took: {missing_ops}")
-    cases, sub = cases_of(edges)
-    core.log(f"[C15] MCCubic: {res.get('states')} states, {len(edges)} transitions/cases in {time.time()-t0:.1f}s")
+    cases, sub, answers = cases_of(edges)
+    core.log(f"[C15] MCCubic: {res.get('states')} states, {len(edges)} transitions, {len(cases)} cases in {time.time()-t0:.1f}s")
 
     # 2./3. spec -> impl -> spec
     nrec, per = (12, 120000) if thorough else (4, 25000)
@@ -294,7 +301,7 @@ def run(tier, seed):
     r.samples = [full_case(cases, i) for i in pick[:2]]
     with open(f"{SCR}/run/rec0.ndjson") as f:
         r.samples.append({"recorded": [json.loads(next(f)) for _ in range(4)]})
-    r.notes["witness_drift"] = drift(edges, shards)
+    r.notes["witness_drift"] = drift(answers, shards)
     r.notes["mc_calls_by_op"] = by_op
     r.notes["replayed_prefixes"] = mc_lines
     r.notes["recorded_lines"] = rec_lines
